@@ -168,6 +168,14 @@ func VfC16_Subscriptions() {
 		nd.Quiesce()
 		nd.Cover("slow-send-resumed")
 	}
+	// the client keeps retrying: while the discovery service accepts streams, a failed stream (or a
+	// failed attempt to create one) is followed by a new one, also after the second failure
+	if callerDone && len(streams) < maxGen {
+		nd.Assert(len(streams) > 0 && !streams[len(streams)-1].isBroken, "after a stream failure the client establishes a new stream (it retries after every failure, not only the first)")
+	}
+	if len(streams) >= 2 || (firstFails && len(streams) >= 1 && attempts >= 3) {
+		nd.Cover("retried-twice")
+	}
 	nd.Class("caller-blocks-on-full-queue-holding-the-lock", !callerDone && (len(c.subCh) == qcap || len(c.unsubCh) == qcap))
 	nd.Assert(callerDone, "the caller of Subscribe/Unsubscribe is never parked forever")
 	if callerDone && len(streams) > 0 {
